@@ -64,6 +64,8 @@ def run_case(case, tier):
     for c in subset:
         opts += ["-c", c]
     extra = rng.choice(([], [], ["-d"], ["--protonate-all"]))
+    if not extra:
+        extra = util.neutral_options(rng, classes=classes)
     full = pdbio.dump(recs)
     cut = pdbio.dump([r for r in recs if r.raw is not None or r.chain in subset])
     ra = obs.run_single(full, opts + extra)
